@@ -134,7 +134,10 @@ func (j *Joe) Subscribe(ctx context.Context, sub Subscription) error {
 	case err := <-done:
 		return err
 	case j.unsubscription <- done:
-		return nil
+		// Joe closes done when it handles the unsubscription. If it had already removed
+		// this subscriber because of an error, that error is still buffered in done and
+		// must be reported: the select above may have picked this case over it.
+		return <-done
 	}
 }
 
